@@ -3554,6 +3554,7 @@ where
         + std::str::FromStr
         + Into<u64>
         + std::ops::Sub<Output = O>
+        + PartialOrd
         + Default
         + Copy,
 {
@@ -3674,6 +3675,10 @@ where
                         Some(track_offset) => {
                             // work-in-progress track has offset,
                             // so deduct that offset from this index point's
+                            // (which may not precede the track's first index point)
+                            if offset < *track_offset {
+                                return Err(CuesheetError::IndexPointsOutOfSequence);
+                            }
 
                             cuesheet::Index {
                                 number,
